@@ -1,11 +1,13 @@
 #!/bin/sh
-# usage: tools/seed_intake_batch.sh <round-suffix> <jobs>   e.g.  r3 4
-# Confirms every /tmp/seedwt/<PROP><suffix>/out/c<k>/ through tools/${INTAKE:-seed_intake.py} (stored as seeded/<PROP>-c<k>), <jobs> at a time.
-suffix=$1; jobs=${2:-4}
+# usage: [INTAKE=neutral_intake.py] tools/seed_intake_batch.sh <round-suffix> <jobs> [<letter>]   e.g.  r4 5 d
+# Confirms every /tmp/seedwt/<PROP><suffix>/out/c<k>/ through tools/$INTAKE (default seed_intake.py), <jobs> at a time; the
+# change is stored as <PROP>-<letter><k> (default letter: c).
+suffix=$1; jobs=${2:-4}; letter=${3:-c}
 cd "$(dirname "$0")/.."
-mkdir -p /tmp/verif-mutants /tmp/${INTAKE:-seed_intake.py}-logs
-ls -d /tmp/seedwt/*${suffix}/out/c* /tmp/seedwt/*${suffix}/out/extra_c* 2>/dev/null | while read d; do
+tool=${INTAKE:-seed_intake.py}
+mkdir -p /tmp/verif-mutants /tmp/$tool-logs
+ls -d /tmp/seedwt/*${suffix}/out/c[0-9] /tmp/seedwt/*${suffix}/out/extra_c[0-9] 2>/dev/null | while read d; do
   prop=$(echo "$d" | sed "s#/tmp/seedwt/\(C[0-9]*\)${suffix}/out/.*#\1#")
-  name=$(basename "$d" | sed 's/extra_//')
-  echo "$prop $name $d"
-done | xargs -P "$jobs" -L 1 sh -c '/venv/bin/python tools/${INTAKE:-seed_intake.py} $0 $1 $2 > /tmp/${INTAKE:-seed_intake.py}-logs/$0-$1.log 2>&1; echo "$0-$1 $(grep -o "\"confirmed\": [a-z]*" /tmp/${INTAKE:-seed_intake.py}-logs/$0-$1.log) check_rc=$(grep -A3 "\"check\"" /tmp/${INTAKE:-seed_intake.py}-logs/$0-$1.log | grep -o "\"rc\": [0-9]*" | head -1)"'
+  name=$(basename "$d" | sed "s/extra_//; s/^c/${letter}/")
+  echo "$prop $name $d $tool"
+done | xargs -P "$jobs" -L 1 sh -c '/venv/bin/python tools/$3 $0 $1 $2 > /tmp/$3-logs/$0-$1.log 2>&1; echo "$0-$1 $(grep -o "\"confirmed\": [a-z]*" /tmp/$3-logs/$0-$1.log) check_rc=$(grep -A3 "\"check\"" /tmp/$3-logs/$0-$1.log | grep -o "\"rc\": [0-9]*" | head -1)"'
